@@ -92,6 +92,12 @@ type world struct {
 	set [nRegs]ds.Set[E]
 	ar  ds.SetArithmetic[E]
 	arO map[E]int
+	// one SetMutations object fed by the collector functions
+	arcM   ds.SetMutations[E]
+	arcAdd func(E)
+	arcSub func(E)
+	arcThr int
+	arc0   map[E]int // counts when the object was fresh; nil = oracle suspended (counts changed through another object)
 	// ordered maps with pointer / slice / map values
 	tmaps    []tmap
 	tref     [][]refEntry
@@ -738,8 +744,52 @@ func (w *world) exec1(op string) string {
 	// ------------------------------------------------------------------------------------------------ arithmetic
 	case "arnew":
 		w.ar, w.arO = ds.NewSetArithmetic[E](), map[E]int{}
+		w.arc0 = nil
 
 		return "ok"
+	case "arcnew":
+		w.arcThr = num(1)
+		w.arcM = ds.NewSetMutations[E]()
+		w.arcAdd = w.ar.AddedElementsCollector(w.arcM, w.arcThr)
+		w.arcSub = w.ar.SubtractedElementsCollector(w.arcM, w.arcThr)
+		w.arc0 = map[E]int{}
+		for k, v := range w.arO {
+			w.arc0[k] = v
+		}
+
+		return "ok"
+	case "arc":
+		if w.arcM == nil {
+			return "bad-op"
+		}
+		e := E(num(2))
+		if f[1] == "+" {
+			w.arcAdd(e)
+			w.arO[e]++
+		} else {
+			w.arcSub(e)
+			w.arO[e]--
+		}
+		ra, rd := w.arcM.AddedElements().ToSlice(), w.arcM.DeletedElements().ToSlice()
+		if w.arc0 != nil {
+			// oracle "arith-threshold": after every collector call the object holds exactly the changes of the threshold set
+			var up, down []E
+			for x := E(0); x < universe; x++ {
+				was, now := w.arc0[x] >= w.arcThr, w.arO[x] >= w.arcThr
+				if now && !was {
+					up = append(up, x)
+				}
+				if !now && was {
+					down = append(down, x)
+				}
+			}
+			if !sameSet(ra, up) || !sameSet(rd, down) {
+				w.fail("arith-threshold", "SetArithmetic.elementsCollector",
+					fmt.Sprintf("after collector call %s%d (thr %d): collected +%v -%v, threshold set changed by +%v -%v (counts then %v, now %v)", f[1], e, w.arcThr, ra, rd, up, down, w.arc0, w.arO))
+			}
+		}
+
+		return fmt.Sprintf("+%s -%s", showList(ra), showList(rd))
 	case "aradd", "arsub":
 		a, d := ds.NewSet(parseList(f[1])...), ds.NewSet(parseList(f[2])...)
 		thr := num(3)
@@ -755,6 +805,7 @@ func (w *world) exec1(op string) string {
 			sign = -1
 			m = w.ar.Subtract(ds.NewSetMutations[E]().WithAddedElements(a).WithDeletedElements(d), thr)
 		}
+		w.arc0 = nil // the counts now change outside the collector session: its oracle no longer applies
 		for _, e := range a.ToSlice() {
 			w.arO[e] += sign
 		}
@@ -1012,6 +1063,25 @@ func genCase(rng *hx.Rng, n int) []string {
 	return ops
 }
 
+// genCollectors: one SetMutations object fed by the collector functions with repeated elements of a 3-element universe,
+// so that counts pass the threshold in both directions several times.
+func genCollectors(rng *hx.Rng) []string {
+	ops := []string{fmt.Sprintf("arcnew %d", rng.Range(1, 3))}
+	bias := rng.Range(3, 7) // out of 10: probability of an added-collector call
+	for i := rng.Range(8, 24); i > 0; i-- {
+		if i%7 == 0 {
+			bias = 10 - bias // swing the counts back through the threshold
+		}
+		sign := "-"
+		if rng.Intn(10) < bias {
+			sign = "+"
+		}
+		ops = append(ops, fmt.Sprintf("arc %s %d", sign, rng.Intn(3)))
+	}
+
+	return ops
+}
+
 func runCase(r *hx.Run, sub uint64, ops []string) {
 	r.Case(sub)
 	w := newWorld(r)
@@ -1080,6 +1150,9 @@ func main() {
 		if rng.Chance(1, 3) {
 			ops = append(ops, genTyped(rng)...)
 		}
+		if rng.Chance(1, 2) {
+			ops = append(ops, genCollectors(rng)...)
+		}
 		runCase(r, sub, ops)
 	}
 	runConcurrent(r)
@@ -1106,6 +1179,10 @@ var corpus = [][]string{
 	{"mdec 02000000010005010007", "mdec 03000000010005020006010007", "dec 0 0200000003000300", "dec 1 03000000010002000100", "mfe", "slice 0"},
 	// arithmetic
 	{"aradd 1,2 2,3 1", "aradd 1,3 - 2", "arsub 1 3 2", "aradd 3,3 - 1", "arsub - 1,2 1", "arsub 1,2 - 1"},
+	// collector functions fed the same element repeatedly into one SetMutations object
+	{"arcnew 1", "arc + 0", "arc + 0", "arc - 0", "arc - 0", "arc - 0", "arc + 0", "arc + 0"},
+	{"arcnew 2", "arc + 1", "arc + 1", "arc + 1", "arc - 1", "arc - 1", "arc + 1", "arc - 2", "arc + 2", "arc + 2", "arc + 2", "arc - 1", "arc - 1"},
+	{"aradd 0,1 - 1", "aradd 0 - 1", "arcnew 2", "arc - 0", "arc + 0", "arc - 0", "arc - 0", "arc + 1", "arc - 1", "arc + 0", "arc + 0"},
 	// algebra
 	{"new 0 1,2,3", "new 1 3,2,1", "equals 0 @1", "hasall 0 2,3", "hasall 0 2,4", "intersect 0 5,3,1", "filter 0 2,3,9", "clone 0 2", "is 0 1", "new 3 4", "is 3 4", "any 3", "any 2", "iter 1"},
 	// forced schedules and one stress run of every kind
